@@ -6,7 +6,6 @@ import (
 	"fmt"
 	"net"
 	"net/http"
-	"net/http/httptest"
 	"sync"
 	"testing"
 	"time"
@@ -86,7 +85,7 @@ func execC17TCP(c C17TCPCase) *Failure {
 			http.Error(rw, "scripted status", st)
 		}
 	})
-	ts := httptest.NewServer(front)
+	ts := ServeTCP(front)
 	defer ts.Close()
 	opts := []mcp.ClientOption{mcp.WithClientLogger(nopLogger{}), mcp.WithClientGetSSEEnabled(false)}
 	max := 0
